@@ -137,16 +137,6 @@ PROP_UNITS = {
     'C07': {'verus': ['int_fmt_width', 'int_fmt_digits', 'int_fmt_dispatch'],
             'kani': ['int_bytes', 'int_chunks', 'int_parse_p2', 'int_fmt_p2'],
             'undecided': [
-                'int_fmt_digits / int_fmt_dispatch cover numbers of at most CHUNK_LEN * digits_per_word digits (PreparedWord, '
-                'PreparedMedium: <= 15 words in radix 10); PreparedDword::new (closure capturing `&mut prepared`, 3-part '
-                'division) and PreparedLarge::{new, write, write_big_chunk, write_chunk} (big-integer pow / sqr / div_rem, '
-                'mem::take, drain(..).rev()) are NOT under contract: their constructors are ASSUMED to "stand for their '
-                'argument" in int_fmt_dispatch; of PreparedLarge only width() is proved (against the stored chunk levels)',
-                'InRadixWriter::format_prepared / DoubleEnd::format_prepared (sign, prefix, width / fill / alignment / zero '
-                'padding around the digits) are not decided: the code is a sequence of core::fmt::Formatter calls around a '
-                'closure that captures a `&mut dyn PreparedForFormatting` (no trait objects / FnMut captures in Verus; a Kani '
-                'harness through core::fmt::Formatter was not attempted: already the DigitWriter with a symbolic digit count '
-                'gives no result in 400 s); only its input -- width() == number of digits written -- is proved',
                 'DigitWriter (buffering, raw digit -> ASCII) is ASSUMED in the Verus units (lib/codecs_writer_stub.rs) and '
                 'exercised for real by the Kani group int_fmt_p2; num_modular PreMulInv1by1::div_rem and '
                 'Normalized2by1Divisor are assumed contracts (dependency)',
@@ -158,7 +148,7 @@ PROP_UNITS = {
                 'chunk size, RefSmall::to_chunks for chunk sizes >= 63; the Vec<Buffer> allocation glue of '
                 'TypedReprRef::to_chunks (RefLarge) and Repr::from_chunks (chunk count, buffer sizes) is NOT covered '
                 '(CBMC: > 5 min / 11 GB on literal inputs)',
-                'parsing: power-of-two radices only, 5 symbolic characters (+ literal tail); the sign / prefix / leading-zero '
-                'stripping of parse/mod.rs and the non-power-of-two parsers are not under contract']},
+                'parsing (Kani group int_parse_p2): bounded to 5 symbolic characters; the unbounded proofs of all parsers '
+                '(every radix, sign / prefix / underscores / leading zeros) are the Verus units int_parse_* (parse_units.py)']},
     'C17': {'kani': ['int_bytes', 'int_chunks']},
 }
